@@ -191,6 +191,7 @@ def run_file(rep, contract_mod, only=None, workers=None, verbose=False):
     hs = list_harnesses(contract_mod, contract_path)
     jobs = []
     metas = {}
+    bounded = []
     for name, meta in hs:
         if "error" in meta:
             rep.engine_error("contract %s.%s could not be loaded: %s" % (contract_mod, name, meta["error"]))
@@ -201,7 +202,15 @@ def run_file(rep, contract_mod, only=None, workers=None, verbose=False):
         if tiers == "thorough" and rep.tier != "thorough":
             continue
         metas[name] = meta
+        if meta.get("bounded"):
+            bounded.append(name)
+            continue
         jobs.append((contract_mod, contract_path, name))
+    if bounded:
+        from . import replay as _rp
+        from concurrent.futures import ThreadPoolExecutor
+        with ThreadPoolExecutor(max_workers=min(8, len(bounded))) as ex:
+            list(ex.map(lambda nm: _rp.run_bounded(rep, contract_mod, nm, metas[nm]), bounded))
     if not jobs:
         return []
     workers = workers or min(16, len(jobs), os.cpu_count() or 4)
